@@ -2,7 +2,8 @@
 Model kind T: lean/EaselModel/Generated/Dist.lean is regenerated from the working tree by translate/c2lean.py on every
 run; theorems (Props/C10.lean) are about those generated definitions at the `ℝ` instance; the `Float` instance of the
 same definitions is executed (Driver/C10.lean) against the C functions (harness/h_dist.c) bit-for-bit.
-Round 4: 110 functions translated (every pdf/cdf/surv/log*/inv*/generic_*/Sample of the ten files except esl_gam_Sample, hand-modelled).
+Round 6: 111 functions translated - esl_gam_Sample too (a draw inside a do-while: the generator becomes the stream u : Nat -> a of variates).
+Round 4: 110 functions translated (every pdf/cdf/surv/log*/inv*/generic_*/Sample of the ten files except esl_gam_Sample).
 Round 3: 106 functions translated — the mixtures (esl_hxp_*, esl_mixgev_*, esl_vec_DMax/DMin/DLogSum: counted loops as folds,
 parameter structures), the four bracketing + bisection inverses (do-while loops recursing on fuel) and the generic-API wrappers.
 L0 support (NOT a theorem): props/c10_ref.py, mpmath at 50 digits, run as property monitors."""
@@ -92,7 +93,7 @@ class C10(Prop):
         "gam_sxp_textbook_laws", "gam_sxp_code_vs_textbook", "gam_sxp_code_close", "mixture_full_laws",
         "mixture_sample_is_component_inverse", "transformed_samples", "sampler_primitive_arguments",
         "gam_sxp_inverse_laws", "mixgev_log_versions", "hxp_inverse_laws", "mixgev_code_close_everywhere", "inverse_right_and_samples",
-        "bisection_total_generic", "hxp_invcdf_total", "sxp_gam_invcdf_total_partial", "mixgev_invcdf_total")]
+        "bisection_total_generic", "hxp_invcdf_total", "sxp_gam_invcdf_total_partial", "mixgev_invcdf_total", "gam_sample_generated", "mixture_log_versions", "cdf_limits_wei_gev_mixgev", "mixgev_inverse_laws")]
     claimed = True
     technique = ("Lean 4 proof about the C functions translated from the working tree on every run (clang-14 AST -> Lean, polymorphic "
                  "over a numeric class): real-analysis theorems at the R instance, the same definitions executed at Float bit-for-bit "
@@ -128,7 +129,7 @@ class C10(Prop):
                    "vector wrk is local to one call (its contents are not carried across calls)",
                    "samplers: the one primitive draw (esl_rnd_UniformPositive / esl_rnd_Gamma / esl_rnd_Gaussian) becomes the parameter u, the arguments handed "
                    "to it are translated too (<fn>_draw) and compared with the C call (ld --wrap interception); esl_rnd_DChoose's result becomes the parameter k; "
-                   "esl_gam_Sample's redraw loop is a hand model over the stream of variates",
+                   "esl_gam_Sample's redraw loop is translated with the generator as the stream u : Nat -> a of Gamma variates (iteration i reads u i; fuel = number of variates supplied)",
                    "binary64 reaches +inf in the tripling bracket only for |mu| < 2^53 (beyond, mu + 1. == mu and the C loop itself never ends); the property's "
                    "location range is +-10^3",
                    "no denormal arguments are generated (e.g. esl_lognormal_pdf(5e-324, mu, 0.5) is 0/0 = NaN because x*sigma underflows - outside any documented range)",
@@ -976,7 +977,7 @@ class C10(Prop):
                 "translated_structs": getattr(self, "tinfo", {}).get("structs", {}),
                 "hand_modelled_functions": ["esl_stats_LogGamma", "esl_stats_IncompleteGamma", "esl_stats_erfc (coefficients dumped from source)",
                                             "esl_rnd_DChoose (Mix.dchoose; the samplers esl_hxp_Sample / esl_mixgev_Sample themselves are translated)",
-                                            "esl_gam_Sample (redraw loop over the stream of Gamma variates: Mix.gamSample)"],
+                                            "(esl_gam_Sample is TRANSLATED since round 6; Mix.gamSample remains as its specification, gam_sample_generated)"],
                 "primitive_variate_of_translated_samplers": getattr(self, "tinfo", {}).get("rng_prim", {}),
                 "not_covered": ["esl_rnd_Gamma / esl_rnd_Gaussian themselves (C09/C11 territory): the samplers built on them are translated as functions "
                                 "of the variate and run against the C code on forced variates (ld --wrap); on the real generator a Kolmogorov-Smirnov monitor",
